@@ -1,4 +1,9 @@
 //! C06 — determinants are correct and the inverse functions really invert.
+//!
+//! `lib.rs`: moderate inputs (dense random matrices, rigid, T*R*S with scales in [2^-10, 2^10]).
+//! `wide.rs`: the regimes moderate sampling never reaches — structured families (affine non-TRS, triangular, block,
+//! sparse, permutation, ...), exact power-of-two scaling of all entries / of the affine blocks / per row and column, and
+//! per-axis scales over the whole documented domain of the affine fast inverse, in Rat, f64 and f32.
 
 use vek::mat::repr_c::column_major as cm;
 use vek::mat::repr_c::row_major as rm;
@@ -218,9 +223,9 @@ pub fn property() -> Property {
             "rustc and the proptest runner/shrinker are trusted",
             "vkit::refmath: Leibniz determinant and adjugate inverse on plain arrays are the oracles; in the regime checks they are evaluated in exact rational arithmetic on the unscaled base matrix also for the float domains (the float input equals the rational base exactly where its entries are dyadic, and within 2 roundings per entry for rotation entries a/n)",
             "float domains: matrices with |det| >= 0.5 only, tolerance k*eps*scale with scale derived from the magnitudes of M and inv(M)",
-            "regime checks, floats: multiplying by a power of two is exact, so the comparison is made after scaling the result back to the base level; general inverse: |error| <= 1024 eps (m^3/|det|)(1 + m |inv|) (a-priori bound of a cofactor evaluation with m = max |entry|; the same bound is used for the agreement of inverted() with the fast inverses, where it becomes loose for large m); fast inverses: 256 eps relative to 1/|scale_i| per row (times |t| for the translation column); determinants: 64 eps * sum over permutations of prod |a_i,p(i)| evaluated on the scaled matrix. The entry-wise scaled tolerance assumes an inverse algorithm that commutes with power-of-two row/column scaling (any division-free cofactor/block evaluation, and elimination with pivots chosen inside a column); uniform scaling of all entries needs no such assumption",
-            "exponent ranges are bounded so that every product of four scaled entries, the 24-term sums and the reciprocal of the determinant stay inside the normal range (f32 |k| <= 20, f64 <= 200, Rat <= 16 so that i128 does not overflow); beyond that every correct implementation over/underflows and nothing is asserted. In Rat the general inverse is not called on T*R*S matrices whose exponents sum to more than 56 (i128 range); the fast inverse still is",
-            "affine fast inverse: the documented domain is |column|^2 > T::epsilon() (the epsilon substitution branch); per-axis scales are kept at s^2 >= 1.75 epsilon (|s| >= 2^-11 in f32, 2^-25 in f64 and Rat, whose epsilon is 2^-52) and <= 2^21 (f32) / 2^41 (f64); the substitution branch itself (negligibly small scales) is outside the property and is not exercised",
+            "regime checks, floats: multiplying by a power of two is exact, so the comparison is made after scaling the result back to the base level; general inverse: |error| <= 256 eps (m^3/|det|)(1 + m |inv|) (a-priori bound of a cofactor evaluation with m = max |entry|; the same bound is used for the agreement of inverted() with the fast inverses, where it becomes loose for large m); fast inverses: 512 eps relative to 1/|scale_i| per row (times |t| for the translation column); determinants: 128 eps * sum over permutations of prod |a_i,p(i)| evaluated on the scaled matrix. The entry-wise scaled tolerance assumes an inverse algorithm that commutes with power-of-two row/column scaling (any division-free cofactor/block evaluation, and elimination with pivots chosen inside a column); uniform scaling of all entries needs no such assumption",
+            "exponent ranges are bounded so that every product of four scaled entries, the 24-term sums and the reciprocal of the determinant stay inside the normal range (f32 |k| <= 20, f64 <= 200, Rat <= 16 so that i128 does not overflow; translations alone down to 2^-56 in Rat); beyond that every correct implementation over/underflows and nothing is asserted. In Rat the general inverse is not called on T*R*S matrices whose exponents sum to more than 56 (i128 range); the fast inverse still is",
+            "affine fast inverse: the documented domain is |column|^2 > T::epsilon() (the epsilon substitution branch); per-axis scales are kept at s^2 >= 1.75 epsilon (|s| >= 2^-11 in f32, 2^-25 in f64 and Rat, whose epsilon is 2^-52) and <= 2^21 (f32) / 2^41 (f64) / 2^31 (Rat); the substitution branch itself (negligibly small scales) is outside the property and is not exercised",
         ],
         checks,
         max_discard_frac: 0.25,
